@@ -11,7 +11,7 @@ TECHNIQUE = ("exhaustive enumeration of the finite domain (all 2231 names x foll
 RULE = ("Named: every key of html.entities.html5 (2231 names, with and without ';' as listed) x follower in {EOF ; = a Z 0 9 space < & \" ' > # x} "
         "x context in {data, RCDATA, double-, single-, un-quoted attribute value}, observed through the tokenizer and through parseFragment. "
         "Numeric: every value 0..0x110000 (quick: a stratified 1/8 slice plus all special values) and overflow samples x {decimal, x, X} x {';', none}, "
-        "batched ~400 per document and compared as a whole, bisected on mismatch. Reverse: every non-surrogate code point except NUL/CR serialised as "
+        "batched ~400 per document and compared as a whole, bisected on mismatch. Reverse: every non-surrogate code point except NUL (CR is a recorded finding) serialised as "
         "text and attribute value with encoding ascii (quick: 1/4 slice; plus latin-1, koi8-r and shift_jis samples) and parsed back. "
         "Non-trivial = the unit contains a reference that the oracle decodes to something other than its literal text; distinct = distinct unit.")
 ASSUMPTIONS = ["html.entities.html5 (CPython stdlib) is the standard's named character reference table",
@@ -209,6 +209,8 @@ def _check_encode(text, enc, where):
         return Verdict("pass", nontrivial=nontrivial, sig=sig64(enc, where, text))
     # which characters fail?
     bad = [ch for ch in text if _roundtrip_one(ser, ch, enc, where) != ch] if len(text) > 1 else list(text)
+    if bad and all(ch == "\r" for ch in bad) and active("C14-cr-written-raw"):
+        return Verdict("known", finding="C14-cr-written-raw", nontrivial=nontrivial, sig=sig64(enc, where, text))
     if bad and all(0x80 <= ord(ch) <= 0x9F and ord(ch) in C1 for ch in bad) and active("C14-c1-unrepresentable"):
         return Verdict("known", finding="C14-c1-unrepresentable", nontrivial=nontrivial, sig=sig64(enc, where, text))
     return Verdict("fail", "encoding %s, %s: %s serialised as %s parses back as %s (bad: %s)"
@@ -373,7 +375,7 @@ def run_shard(desc, seed, tier):
         acc.exhaustive = True
     elif kind == "encode":
         stride = desc["stride"]
-        cps = [cp for cp in range(1, 0x110000) if not (0xD800 <= cp <= 0xDFFF) and cp != 0xD]
+        cps = [cp for cp in range(1, 0x110000) if not (0xD800 <= cp <= 0xDFFF)]
         cps = cps[desc["part"]::desc["of"]]
         off = seed % stride
         B = 64
